@@ -92,6 +92,87 @@ theorem clean_up_only_zeroes_table_entries (k : Kind) (rIdx : Nat) (s : St) (p4 
   obtain ⟨h0, q, hq, hqi, _, hf⟩ := h.mem f j hne
   exact ⟨h0, q, by omega, hqi, hf⟩
 
+/-- **Only table links are zeroed, and only links to tables that this run frees**: a word that
+clean-up modifies pointed (present, not huge) to a table which is deallocated in the same run. -/
+theorem clean_up_only_zeroes_links_to_freed_tables (k : Kind) (rIdx : Nat) (s : St) (p4 : Word) (rs re : Nat)
+    (hinv : Inv s.mem p4) :
+    ∃ seg, (cleanUpRange k rIdx s p4 rs re).2.events = s.events ++ seg ∧
+      ∀ f j, (cleanUpRange k rIdx s p4 rs re).2.mem f j ≠ s.mem f j →
+        ∃ c, tableOf (s.mem f j) = some c ∧ c ∈ deallocsIn seg := by
+  obtain ⟨seg, h⟩ := clean_up_range_post k rIdx s p4 rs re hinv
+  exact ⟨seg, h.events, h.link⟩
+
+/-- **Leaf entries are never touched**: a slot that does not point to a table — unused, a present
+page, or a page mapped WITHOUT `PRESENT` (a non-zero, non-present word) — holds the same word afterwards. -/
+theorem clean_up_keeps_leaf_entries (k : Kind) (rIdx : Nat) (s : St) (p4 : Word) (rs re : Nat)
+    (hinv : Inv s.mem p4) (f : Word) (j : Nat) (hleaf : tableOf (s.mem f j) = none) :
+    (cleanUpRange k rIdx s p4 rs re).2.mem f j = s.mem f j := by
+  obtain ⟨seg, h⟩ := clean_up_range_post k rIdx s p4 rs re hinv
+  apply Classical.byContradiction
+  intro hne
+  obtain ⟨c, hc, _⟩ := h.link f j hne
+  rw [hleaf] at hc; cases hc
+
+/-- **A table that is not empty at the end was not freed and is still linked where it was** (so are all
+tables above it). -/
+theorem clean_up_keeps_nonempty_tables (k : Kind) (rIdx : Nat) (s : St) (p4 : Word) (rs re : Nat)
+    (hinv : Inv s.mem p4) (q : List Nat) (t : Word) (hqi : IdxOK q) (ht : tblAt s.mem p4 q = some t)
+    (j : Nat) (hj : j < 512) (hfin : (cleanUpRange k rIdx s p4 rs re).2.mem t j ≠ 0#64) :
+    tblAt (cleanUpRange k rIdx s p4 rs re).2.mem p4 q = some t ∧
+    ∃ seg, (cleanUpRange k rIdx s p4 rs re).2.events = s.events ++ seg ∧ t ∉ deallocsIn seg := by
+  obtain ⟨seg, h⟩ := clean_up_range_post k rIdx s p4 rs re hinv
+  generalize (cleanUpRange k rIdx s p4 rs re).2 = s' at h hfin ⊢
+  -- a table with a non-zero entry at the end is not among the freed ones
+  have notFreed : ∀ g x, x < 512 → s'.mem g x ≠ 0#64 → g ∉ deallocsIn seg := by
+    intro g x hx hnz hg
+    obtain ⟨_, _, _, _, _, _, hz, _⟩ := h.freed g hg
+    exact hnz (hz x hx)
+  have gen : ∀ (q : List Nat) (tbl0 : Word), IdxOK q → tblAt s.mem tbl0 q = some t →
+      tblAt s'.mem tbl0 q = some t ∧ ∃ x, x < 512 ∧ s'.mem tbl0 x ≠ 0#64 := by
+    intro q
+    induction q with
+    | nil =>
+      intro tbl0 _ h0
+      simp [tblAt] at h0; subst h0
+      exact ⟨rfl, j, hj, hfin⟩
+    | cons i rest ih =>
+      intro tbl0 hidx h0
+      have hi : i < 512 := hidx i (by simp)
+      simp only [tblAt] at h0
+      cases hto : tableOf (s.mem tbl0 i) with
+      | none => rw [hto] at h0; cases h0
+      | some t' =>
+        rw [hto] at h0
+        obtain ⟨h1, x, hx, hnz⟩ := ih t' (fun y hy => hidx y (List.mem_cons_of_mem _ hy)) h0
+        -- the link to `t'` was not zeroed: `t'` is not freed
+        have hsame : s'.mem tbl0 i = s.mem tbl0 i := by
+          apply Classical.byContradiction
+          intro hne
+          obtain ⟨c, hc, hd⟩ := h.link tbl0 i hne
+          rw [hto] at hc
+          have : c = t' := (Option.some.inj hc).symm
+          subst this
+          exact notFreed c x hx hnz hd
+        refine ⟨by simp only [tblAt, hsame, hto]; exact h1, i, hi, ?_⟩
+        rw [hsame]
+        intro hz; rw [hz] at hto
+        have h0' : tableOf (0#64 : Word) = none := by decide
+        rw [h0'] at hto; cases hto
+  exact ⟨(gen q p4 hqi ht).1, seg, h.events, notFreed t j hj hfin⟩
+
+/-- **Clean-up never frees a table that holds a leaf entry** — in particular not the table holding the
+slot of a page mapped without `PRESENT`: the table `t` at path `q` has, in slot `j`, a non-zero word that
+is not a table link (a present page, or a non-present one); afterwards the slot holds the same word, `t` is
+still linked at `q`, and `t` is not among the deallocated frames. -/
+theorem clean_up_keeps_table_with_leaf (k : Kind) (rIdx : Nat) (s : St) (p4 : Word) (rs re : Nat)
+    (hinv : Inv s.mem p4) (q : List Nat) (t : Word) (hqi : IdxOK q) (ht : tblAt s.mem p4 q = some t)
+    (j : Nat) (hj : j < 512) (hnz : s.mem t j ≠ 0#64) (hleaf : tableOf (s.mem t j) = none) :
+    (cleanUpRange k rIdx s p4 rs re).2.mem t j = s.mem t j ∧
+    tblAt (cleanUpRange k rIdx s p4 rs re).2.mem p4 q = some t ∧
+    ∃ seg, (cleanUpRange k rIdx s p4 rs re).2.events = s.events ++ seg ∧ t ∉ deallocsIn seg := by
+  have hsame := clean_up_keeps_leaf_entries k rIdx s p4 rs re hinv t j hleaf
+  exact ⟨hsame, clean_up_keeps_nonempty_tables k rIdx s p4 rs re hinv q t hqi ht j hj (by rw [hsame]; exact hnz)⟩
+
 /-- The log of a clean-up: reads and zero-writes of page tables, and deallocations; no allocator
 request, allocator state untouched. -/
 theorem clean_up_log_shape (k : Kind) (rIdx : Nat) (s : St) (p4 : Word) (rs re : Nat) (hinv : Inv s.mem p4) :
